@@ -21,10 +21,7 @@ RULE = ('cases = {LSML, LSML_Supervised} x prior {identity, covariance, '
         'one fit. distinct_nontrivial counts distinct (estimator, '
         'configuration, quadruplet set) with at least one violated constraint '
         'under the prior, or the satisfied-prior case.')
-ASSUMPTIONS = ['early stops with tol <= 1e-5 whose gradient norm lies in '
-               '(tol, 100*tol] are counted as inconclusive (objective '
-               'differences below floating-point resolution stop the line '
-               'search); results with an eigenvalue at the solver\'s 1e-8 '
+ASSUMPTIONS = ['results with an eigenvalue at the solver\'s 1e-8 '
                'floor are constrained optima and not judged for stationarity']
 TIMEOUT = {'quick': 1200, 'thorough': 4 * 3600}
 CASE_TIMEOUT = {'quick': 300, 'thorough': 1200}
@@ -216,8 +213,6 @@ def run_case(spec, j):
     elif gnorm <= tol * (1 + 1e-6):
       j.ok('C12.stationary')
       j.margin('C12.stationary', gnorm / tol)
-    elif tol <= 1e-5 and gnorm <= 100 * tol:
-      j.skip('C12.stationary', 'numerical-floor')
     else:
       j.violated('C12.stationary',
                  dict(det, grad_norm=gnorm, tol=tol, n_iter=n_iter,
